@@ -5,7 +5,7 @@ From Coq Require Import List NArith Bool Lia Arith.
 From Coq Require Import ZifyBool ZifyNat ZifyN.
 From SNT Require Import Base.Outcome Base.Sweep Image.KDTree Image.KDTreeProofs Image.Octree Image.OctreeExact
      Image.Quantize Image.QuantizeProofs Image.QuantizeExact
-     Image.Sixel Image.SixelInterp Image.SixelStrip Image.SixelBody Image.SixelPicture Image.SixelDraw Gen.TabSixel.
+     Image.Sixel Image.SixelInterp Image.SixelStrip Image.SixelBody Image.SixelPicture Image.SixelDraw Image.SixelCache Gen.TabSixel.
 Import ListNotations.
 Local Open Scope N_scope.
 
@@ -350,4 +350,38 @@ Proof.
     rewrite Forall_forall in Hok. specialize (Hok r Hr). rewrite Forall_forall in Hok. specialize (Hok p Hp).
     destruct p; exact Hok. }
   apply map3_classes; apply Hall; assumption.
+Qed.
+
+(* ---------- repeated draws on one handler ---------- *)
+
+(* what a computation of this draw writes and caches: nothing when quantize returned None *)
+Definition fresh_of (o : outcome (list N)) : option (list N) :=
+  match o with Ok (b :: r) => Some (b :: r) | _ => None end.
+
+Definition draw_req := (N * list (list spx) * list (list N))%type.   (* content hash, view, strip orders *)
+
+Definition cache_req (d : draw_req) : N * option (list N) :=
+  let '(key, rows, ord) := d in (key, fresh_of (sixel_draw rows ord)).
+
+(* SixelImageHandler::draw called on each request in turn: the cache of Image/SixelCache.v with
+   the regenerated IMAGE_CACHE_SIZE, fresh encodings by sixel_draw under that draw's own
+   hash-map order *)
+Definition handler_run (ds : list draw_req) : list (list N) :=
+  hrun sixel_cache_limit ([], 0) (map cache_req ds).
+
+Theorem repeat_draw : forall (ds : list draw_req) i j key rows oi rows' oj b,
+  total (map cache_req ds) <= sixel_cache_limit ->
+  nth_error ds i = Some (key, rows, oi) -> sixel_draw rows oi = Ok b -> b <> [] ->
+  (forall i' d, (i' < i)%nat -> nth_error ds i' = Some d -> fst (fst d) <> key) ->
+  (i < j)%nat -> nth_error ds j = Some (key, rows', oj) ->
+  nth_error (handler_run ds) i = Some b /\ nth_error (handler_run ds) j = Some b.
+Proof.
+  intros ds i j key rows oi rows' oj b Htot Hi Hb Hne Hfirst Hij Hj. unfold handler_run.
+  apply (second_draw_identical sixel_cache_limit (map cache_req ds) key b i j (fresh_of (sixel_draw rows' oj))).
+  - exact Htot.
+  - rewrite nth_error_map, Hi. cbn [option_map cache_req]. rewrite Hb. destruct b; [congruence|reflexivity].
+  - intros i' Hi' f E. rewrite nth_error_map in E. destruct (nth_error ds i') as [[[k r] o]|] eqn:Ed; [|discriminate].
+    cbn [option_map cache_req] in E. inversion E; subst. apply (Hfirst i' _ Hi' Ed). reflexivity.
+  - exact Hij.
+  - rewrite nth_error_map, Hj. reflexivity.
 Qed.
